@@ -96,6 +96,8 @@ class HeapFn(cxx2gal.LoopFn):
     def coqtype_of(self, q):
         if q.strip().endswith("&") and self.is_record(q):
             return "hptr"                    # a reference to a modelled record: the address of the object
+        if self.rec_name(q) in self.cfg.get("opaque_classes", []) and not q.strip().endswith("*"):
+            return "Z"                       # an object of an opaque class (a text): the integer that identifies its value
         q = TYPEDEFS.get(norm_type(q), q)
         if self.is_rec_ptr(q):
             return "hptr"
@@ -303,6 +305,66 @@ class HeapFn(cxx2gal.LoopFn):
                     return self.E(self.inner(x)[1], lambda sz: (
                         "(let %s := HPtr (List.length mem) 0 in let mem := mem ++ [repeat (VInt 0) %d] in "
                         "let evs := evs ++ [HAllocRec nx %s %s] in let nx := nx + 1 in %s)") % ("pnew", cells, "pnew", sz, k("pnew")))
+        if kd == "CXXConstructExpr" and self.is_opaque_obj(qual(n)) and len(inn) == 1:
+            return self.E(inn[0], k)         # SimpleString x = <text>: the same text
+        if kd in CASTS and n.get("castKind") == "ConstructorConversion":
+            return self.E(inn[0], k)
+        if kd in ("CXXOperatorCallExpr", "CXXMemberCallExpr"):
+            try:
+                tp = self.calls.get(self.callee_name(inn[0]))
+            except Unsupported:
+                tp = None
+            if isinstance(tp, dict) and tp.get("text_pred"):
+                # text == "literal" / text.startsWith("literal"): the predicate named in the spec applied to the text and the literal
+                if kd == "CXXOperatorCallExpr":
+                    ops = [inn[1], inn[2]]
+                else:
+                    callee = inn[0]
+                    while callee.get("kind") in ("ImplicitCastExpr", "ParenExpr"):
+                        callee = self.inner(callee)[0]
+                    ops = [self.inner(callee)[0], inn[1]]
+                lit, other = None, None
+                for o in ops:
+                    x = o
+                    while x.get("kind") in SKIP or x.get("kind") in CASTS or (x.get("kind") == "CXXConstructExpr" and len(self.inner(x)) == 1):
+                        if x.get("kind") in CASTS and x.get("castKind") == "LValueToRValue":
+                            break
+                        x = self.inner(x)[0]
+                    if x.get("kind") == "StringLiteral" and lit is None:
+                        lit = x
+                    else:
+                        other = o
+                if lit is None or other is None:
+                    raise Unsupported("text predicate %s needs one literal operand" % tp["text_pred"])
+                return self.E(other, lambda v: k("(%s %s %s)" % (tp["text_pred"], v, coq_text(c_unescape(lit["value"])))))
+            if isinstance(tp, dict) and tp.get("handler"):
+                # a handler that may advance the index it gets by reference: the ghost event AHandler name index literal flags; its result
+                # and the new index are the next pair of the oracle stream hres
+                args = list(inn[1:])
+                ix = args[tp.get("i_arg", 2)]
+                while ix.get("kind") in SKIP or (ix.get("kind") in CASTS and ix.get("castKind") in ("NoOp",)):
+                    ix = self.inner(ix)[0]
+                by_value = ix.get("kind") in CASTS and ix.get("castKind") == "LValueToRValue"
+                if by_value:
+                    ix = self.inner(ix)[0]
+                if ix.get("kind") != "DeclRefExpr":
+                    raise Unsupported("handler index is not a variable")
+                iv = self.ident(ix["referencedDecl"]["name"])
+                lits, flags = [], []
+                for a in args[tp.get("i_arg", 2) + 1:]:
+                    x = a
+                    while x.get("kind") in SKIP or x.get("kind") in CASTS or (x.get("kind") == "CXXConstructExpr" and len(self.inner(x)) == 1):
+                        x = self.inner(x)[0]
+                    if x.get("kind") == "StringLiteral":
+                        lits.append(coq_text(c_unescape(x["value"])))
+                    elif x.get("kind") == "CXXBoolLiteralExpr":
+                        flags.append("1" if x["value"] else "0")
+                    else:
+                        raise Unsupported("handler argument of kind %s" % x.get("kind"))
+                rv, ni = self.tmp("rv"), self.tmp("ni")
+                ev = "AHandler %s %s %s [%s]" % (cxx2coq.coq_string(tp["handler"]), iv, lits[0] if lits else '""%string', "; ".join(flags))
+                upd = "" if by_value else "let %s := %s in " % (iv, ni)
+                return "(match hres with nil => Oob | cons (%s, %s) hres => let evs := evs ++ [%s] in %s%s end)" % (rv, ni, ev, upd, k(rv))
         if kd == "MemberExpr" and self.is_opaque_obj(qual(n)):
             return self.L(n, lambda lv: self.rvalue(lv, k))     # an object of an opaque class read as a value: the integer identifying it
         if kd == "CXXOperatorCallExpr" and n.get("inner") and isinstance(self.calls.get("operator="), dict) and \
@@ -550,6 +612,16 @@ class HeapFn(cxx2gal.LoopFn):
                 spec = None
             if isinstance(spec, dict) and spec.get("recv_field"):
                 flags.add("mem")
+            if isinstance(spec, dict) and spec.get("handler"):
+                for g, _ in self.cfg.get("ghosts", []):
+                    assigned.add(g)
+                    refs.add(g)
+                a = self.inner(n)[1:][spec.get("i_arg", 2)]
+                while a.get("kind") in SKIP or a.get("kind") in CASTS:
+                    a = self.inner(a)[0]
+                if a.get("kind") == "DeclRefExpr":
+                    assigned.add(self.ident(a["referencedDecl"]["name"]))
+                    refs.add(self.ident(a["referencedDecl"]["name"]))
             if isinstance(spec, dict) and spec.get("method"):
                 flags.add("mem")
                 flags.add("call")
@@ -711,8 +783,8 @@ def layouts_text(tr):
     return "\n".join(out) + "\n"
 
 
-def generate_cached(h, repo, root, name, cfgs, header, records):
-    key = cxx2coq.source_hash(repo, name + json.dumps(cfgs, sort_keys=True) + json.dumps(records) + header + open(__file__).read() +
+def generate_cached(h, repo, root, name, cfgs, header, records, footer=""):
+    key = cxx2coq.source_hash(repo, name + json.dumps(cfgs, sort_keys=True) + json.dumps(records) + header + footer + open(__file__).read() +
                               open(cxx2gal.__file__).read())
     cdir = os.path.join(root, "build", "leafcache")
     os.makedirs(cdir, exist_ok=True)
@@ -740,7 +812,7 @@ def generate_cached(h, repo, root, name, cfgs, header, records):
         if err:
             ok = False
             h.errors.append("cxx2heap: " + err)
-    body = "\n".join(out)
+    body = "\n".join(out) + footer
     if ok:
         tmp = cp + ".tmp%d" % os.getpid()
         open(tmp, "w").write(body)
